@@ -270,7 +270,20 @@ class Explorer:
         return out, done
 
     # ------------------------------------------------------------------ memory helpers
+    def na_access(self, kind):
+        """A non-atomic access to a tracked cell (the UnsafeCell of C18): at most one event per MIR step and kind."""
+        h = getattr(self, 'na_hook', None)
+        if h is None:
+            return
+        key = (self.stats.steps, kind)
+        if getattr(self, '_na_last', None) == key:
+            return
+        self._na_last = key
+        h(kind)
+
     def load(self, ref: Ref):
+        if ref.cell.tracked:
+            self.na_access('read')
         v = ref.cell.v
         for p in ref.path:
             v = self.project(v, p)
@@ -291,6 +304,8 @@ class Explorer:
         raise Unsupported('projection %r of %r' % (p, v))
 
     def store(self, ref: Ref, val):
+        if ref.cell.tracked:
+            self.na_access('write')
         ref.cell.v = self._store_path(ref.cell.v, ref.path, val)
 
     def _store_path(self, cur, path, val):
@@ -564,6 +579,8 @@ class Frame:
         ex = self.ex
         prog = ex.prog
         key = strip_generics(c)
+        if 'SizedTypeProperties>::ALIGN' in c or 'SizedTypeProperties>::SIZE' in c:
+            return mk_int(8, 'usize')          # pointer-sized payloads (Option<Arc<T>>)
         if key in ('core::num::<impl u64>::MAX', 'u64::MAX', 'core::num::MAX'):
             return mk_int((1 << 64) - 1, 'u64')
         if key.endswith('u64>::MAX') or c.endswith('impl u64>::MAX'):
@@ -573,7 +590,12 @@ class Frame:
         pm = re.search(r'::([A-Za-z_0-9]+)(?:::<.*>)?::(promoted\[\d+\])$', c)
         if not cands and pm:
             # `<Type as Trait>::method::<G>::promoted[0]`: the promoted of the function this frame executes
-            own = self.f.name.split('#')[0] + '::' + pm.group(2)
+            own = re.sub(r'#\d+$', '', self.f.name) + '::' + pm.group(2)
+            if own in prog.funcs:
+                cands = [own]
+        pm2 = re.search(r'(promoted\[\d+\])$', c)
+        if not cands and pm2:
+            own = re.sub(r'#\d+$', '', self.f.name) + '::' + pm2.group(1)
             if own in prog.funcs:
                 cands = [own]
         if len(cands) == 1:
@@ -700,6 +722,8 @@ class Frame:
                 raise Unsupported('transmute of %r' % (v,))
             if kind == 'Transmute' and isinstance(v, BoxV) and ty.strip().startswith('*'):
                 return Native('rawptr', Ref(v.cell, (), True))
+            if kind == 'Transmute' and isinstance(v, Native) and v.rty == 'rawptr' and ty.strip() in INT_TYPES:
+                return mk_int(0x1000, ty.strip())      # a non-null, well-aligned address
             return v
         raise Unsupported('cast kind %s' % kind)
 
